@@ -323,7 +323,7 @@ class RestGen:
                 if rng.random() < 0.5:
                     path += "/{%s}" % pn
             if verb in BODY_VERBS:
-                # a body verb needs a struct parameter (a POST without one does not compile: C06 finding)
+                # most body verbs carry a struct parameter (without one no body is sent)
                 params.append({"name": "body", "kind": "struct", "type": "User", "ptr": rng.random() < 0.3})
             methods.append({"name": mn, "verb": verb, "verbtext": verbtext(rng, verb), "path": path, "quoted": rng.random() < 0.8,
                             "alias": [], "ctx": "ctx" if ctx else None, "ctxpos": 0, "params": params,
@@ -652,7 +652,7 @@ C01_MODES = ["type", "list", "file", "star"]
 
 
 def c01_shape(rng, g, shape, names, ctx):
-    """interfaces for one package; shape: wf | mixedctx | bodynostruct | ptrdict | twostructs | unsupported"""
+    """interfaces for one package; shape: wf | mixedctx | bodynostruct (both ordinary WF shapes since 230b9e4 / de8bb02) | ptrdict | twostructs | unsupported"""
     ifaces = []
     for j, name in enumerate(names):
         i = g.iface(name=name, ctx=ctx if j == 0 else (rng.random() < 0.6))
